@@ -40,6 +40,10 @@ func newC09BackendOn(addr string) (*c09Backend, error) {
 			tok = v[0]
 		}
 		isWS := rawhttp.HasToken(req.Get("Upgrade"), "websocket")
+		if tok == "" && isWS && strings.HasPrefix(req.Target, "/ws/") {
+			// a handshake that arrives without the client's X-Tok field is still attributed to its case by its path
+			tok = strings.SplitN(strings.TrimPrefix(req.Target, "/ws/"), "?", 2)[0]
+		}
 		b.mu.Lock()
 		b.seen[tok] = append(b.seen[tok], req)
 		if isWS {
@@ -53,6 +57,17 @@ func newC09BackendOn(addr string) (*c09Backend, error) {
 			}
 			h := sha1.Sum([]byte(key + "258EAFA5-E914-47DA-95CA-C5AB0DC85B11"))
 			var w rawhttp.Builder
+			hdrBytes := 0
+			for _, f := range req.Fields {
+				hdrBytes += len(f.Name) + len(f.Value) + 4
+			}
+			if hdrBytes > 2500 {
+				// a backend with a tight limit on the header block turns the handshake down (Node: 431; nginx, Tornado: 400)
+				status := []string{"431 Request Header Fields Too Large", "400 Bad Request"}[hdrBytes%2]
+				w.Line("HTTP/1.1 "+status).Field("Content-Length", "0").Field("Connection", "close").End()
+				conn.Write(w.Bytes())
+				return false
+			}
 			w.Line("HTTP/1.1 101 Switching Protocols").Field("Upgrade", "websocket").Field("Connection", "Upgrade").
 				Field("Sec-WebSocket-Accept", base64.StdEncoding.EncodeToString(h[:])).End()
 			conn.Write(w.Bytes())
@@ -157,6 +172,8 @@ func C09(r *core.Run) {
 					c.Identity, idKind = "a%2Bb%40"+tok+"%zz", "percent"
 				case 4:
 					c.Identity, idKind = "First Last <"+tok+"@example.com>", "spaces"
+				case 6:
+					c.Identity, idKind = "Dave."+tok+"@Example.COM", "mixed-case-domain"
 				}
 				// plain requests whose paths merely resemble the shim's own endpoints must be treated like any other
 				c.Path = "/plain/" + tok
@@ -220,6 +237,12 @@ func C09(r *core.Run) {
 				}
 				if c.Shim {
 					c.URLForm = []string{"absolute", "absolute", "userinfo", "path-only", "userinfo-no-password"}[rng.Intn(5)]
+				}
+				if c.Shim && i%12 == 6 {
+					// an open request padded beyond the backend's header-block limit: the backend turns the handshake down;
+					// whatever the agent does next, a handshake that reaches the backend carries trustworthy fields
+					c.Fields = append(c.Fields, rawhttp.Field{Name: "X-Pad-" + tok, Value: strings.Repeat("p", 2600+i)})
+					idKind += "+handshake-declined-for-header-size"
 				}
 				c.Class = fmt.Sprintf("%s|shim=%v%s|forged=%s|auth=%d|id=%s|conn=%s", cfgName, c.Shim, c.URLForm, fshape, auth, idKind, conn)
 				cases = append(cases, c)
